@@ -2126,5 +2126,129 @@ theorem winv_init : WInv ({} : World) := by
   simp only [List.mem_cons, List.not_mem_nil, or_false] at hg
   rcases hg with rfl | rfl | rfl | rfl <;> exact inv_empty
 
+/-! ### a rejected single-object operation changes nothing -/
+
+theorem set_self {α : Type} {l : List α} {i : Nat} {a : α} (h : l[i]? = some a) : l.set i a = l := by
+  have hlt : i < l.length := by
+    rcases Nat.lt_or_ge i l.length with hlt | hge
+    · exact hlt
+    · rw [List.getElem?_eq_none hge] at h; cases h
+  have : l[i] = a := by rw [List.getElem?_eq_getElem hlt] at h; exact Option.some.inj h
+  rw [← this]; exact List.set_getElem_self hlt
+
+theorem put_get (w : World) (t : Nat) : w.put t (w.get t) = w := by
+  unfold World.put World.get
+  cases h : w.conts[t]? with
+  | none =>
+    have : w.conts.length ≤ t := by
+      rcases Nat.lt_or_ge t w.conts.length with hlt | hge
+      · rw [List.getElem?_eq_getElem hlt] at h; cases h
+      · exact hge
+    simp [List.set_eq_of_length_le this]
+  | some g =>
+    have hlt : t < w.conts.length := by
+      rcases Nat.lt_or_ge t w.conts.length with hlt | hge
+      · exact hlt
+      · rw [List.getElem?_eq_none hge] at h; cases h
+    have : w.conts[t] = g := by
+      rw [List.getElem?_eq_getElem hlt] at h; exact Option.some.inj h
+    simp [← this]
+
+theorem on_unchanged (w : World) (t : Nat) (f : Glyph → Glyph × Res)
+    (hf : (f (w.get t)).2 = .err .assertion → (f (w.get t)).1 = w.get t)
+    (h : (w.on t f).2 = .err .assertion) : (w.on t f).1 = w := by
+  unfold World.on at h ⊢
+  simp only at h ⊢
+  rw [hf h]; exact put_get w t
+
+theorem insertPoint_unchanged (g : Glyph) (ci idx : Nat) (p : Point)
+    (h : (insertPoint g ci idx p).2 = .err .assertion) : (insertPoint g ci idx p).1 = g := by
+  unfold insertPoint at h ⊢
+  cases hc : g.contours[ci]? with
+  | none => simp only
+  | some c =>
+    simp only [hc] at h ⊢
+    cases hp : p.id with
+    | none => simp [hp] at h
+    | some y =>
+      simp only [hp] at h ⊢
+      by_cases hy : y ∈ g.reg
+      · simp [hy]
+      · simp [hy] at h
+
+theorem claim_unchanged (g : Glyph) (idx : Nat) (k : Comp) (v : Option Id) :
+    ((insertComp g idx k).2 = .err .assertion → (insertComp g idx k).1 = g) ∧
+    ((insertAnchor g idx v).2 = .err .assertion → (insertAnchor g idx v).1 = g) ∧
+    ((insertGuide g idx v).2 = .err .assertion → (insertGuide g idx v).1 = g) := by
+  refine ⟨?_, ?_, ?_⟩
+  · unfold insertComp; cases claimOpt g.reg k.id <;> simp
+  · unfold insertAnchor; cases claimOpt g.reg v <;> simp
+  · unfold insertGuide; cases claimOpt g.reg v <;> simp
+
+theorem setter_unchanged (g : Glyph) (i : Nat) (v : Option Id) :
+    ((setContourId g i v).2 = .err .assertion → (setContourId g i v).1 = g) ∧
+    ((setCompId g i v).2 = .err .assertion → (setCompId g i v).1 = g) ∧
+    ((setAnchorId g i v).2 = .err .assertion → (setAnchorId g i v).1 = g) ∧
+    ((setGuideId g i v).2 = .err .assertion → (setGuideId g i v).1 = g) := by
+  refine ⟨?_, ?_, ?_, ?_⟩
+  · unfold setContourId
+    split
+    · intro _; rfl
+    · rename_i c hc
+      intro h
+      obtain ⟨h1, h2⟩ := setIdent_err (cur := c.id) (reg := g.reg) (v := v) (by simp only at h; rw [h]; simp)
+      simp only [h1, h2]
+      have hc' : ({ c with id := c.id } : Contour) = c := rfl
+      rw [hc', set_self hc]
+  · unfold setCompId
+    split
+    · intro _; rfl
+    · rename_i c hc
+      intro h
+      obtain ⟨h1, h2⟩ := setIdent_err (cur := c.id) (reg := g.reg) (v := v) (by simp only at h; rw [h]; simp)
+      simp only [h1, h2]
+      have hc' : ({ c with id := c.id } : Comp) = c := rfl
+      rw [hc', set_self hc]
+  · unfold setAnchorId
+    split
+    · intro _; rfl
+    · rename_i c hc
+      intro h
+      obtain ⟨h1, h2⟩ := setIdent_err (cur := c) (reg := g.reg) (v := v) (by simp only at h; rw [h]; simp)
+      simp only [h1, h2]
+      rw [set_self hc]
+  · unfold setGuideId
+    split
+    · intro _; rfl
+    · rename_i c hc
+      intro h
+      obtain ⟨h1, h2⟩ := setIdent_err (cur := c) (reg := g.reg) (v := v) (by simp only at h; rw [h]; simp)
+      simp only [h1, h2]
+      rw [set_self hc]
+
+theorem gen_unchanged (g : Glyph) (i j : Nat) (cands : List Id) :
+    ((genContourId g i cands).2 = .err .assertion → (genContourId g i cands).1 = g) ∧
+    ((genPointId g i j cands).2 = .err .assertion → (genPointId g i j cands).1 = g) ∧
+    ((genCompId g i cands).2 = .err .assertion → (genCompId g i cands).1 = g) ∧
+    ((genAnchorId g i cands).2 = .err .assertion → (genAnchorId g i cands).1 = g) ∧
+    ((genGuideId g i cands).2 = .err .assertion → (genGuideId g i cands).1 = g) := by
+  refine ⟨?_, ?_, ?_, ?_, ?_⟩
+  · unfold genContourId
+    repeat' (first | split | dsimp only)
+    all_goals first | (intro _; rfl) | (intro h; simp at h)
+  · unfold genPointId
+    repeat' split
+    all_goals first | (intro _; rfl) | (intro h; simp at h)
+  · unfold genCompId
+    repeat' split
+    all_goals first | (intro _; rfl) | (intro h; simp at h)
+  · unfold genAnchorId
+    repeat' split
+    all_goals first | (intro _; rfl) | (intro h; simp at h)
+  · unfold genGuideId
+    repeat' split
+    all_goals first | (intro _; rfl) | (intro h; simp at h)
+
+
 end Ident
 end DefconModel
